@@ -87,6 +87,8 @@ def cutout(desc):
         # TER between chains and at every gap, so that each fragment starts with a proper N-terminus
         if last_chain is not None and (rk[0] != last_chain or idx != last_idx + 1):
             items.append('TER\n')
+        elif last_chain is not None and [rk[0], rk[1]] in desc.get('ter_before', []):
+            items.append('TER\n')   # an extra chain break requested by the check
         last_chain, last_idx = rk[0], idx
         for a in atoms:
             b = a.clone()
